@@ -20,6 +20,7 @@ plan('C10',
          Job(H, 'sizes', 'plain', quick=4, thorough=32, shards=(2, 4), params=dict(stride=2097152, base=300001), tparams=dict(stride=262144), batch=4, case_timeout=200, tag='c10.sizes_big'),
          Job(H, 'ranges', 'plain', quick=44, thorough=300, shards=(4, 8), batch=11, case_timeout=200),
          Job(H, 'ranges', 'asan', quick=24, thorough=100, shards=(4, 8), batch=6, case_timeout=200),
+         Job(H, 'chunked', 'plain', quick=16, thorough=64, shards=(16, 16), batch=2, case_timeout=200),
          Job(H, 'stream', 'plain', quick=150, thorough=4000, shards=(2, 4), batch=75, case_timeout=120),
          Job(H, 'stream', 'asan', quick=100, thorough=2000, shards=(2, 4), batch=50, case_timeout=120),
          Job(H, 'raw', 'asan', quick=500, thorough=20000, shards=(4, 8), batch=125, case_timeout=120),
